@@ -21,13 +21,13 @@ def _describe(tier):
                 'Decrypt(k,Encrypt(k,m))==m, len(c)==16+16*(len(m)//16+1), two encryptions differ (and their IVs differ), c[16:] equals '
                 'AES-CBC(k, iv=c[:16], pkcs7(m)) computed directly with `cryptography`, decryption under two other keys raises or differs, '
                 'a one-bit change of the key is such another key; declared-length variants: message_length/cipher_length in '
-                '{unlimited, exact, off by one / off by one block} must accept/raise ValueError accordingly; every wrong key length 0..40 must '
+                '{unlimited, exact, off by one / off by one block} must accept/raise ValueError accordingly, and the ciphertext written by an object with an exact declared message length meets the same oracle (expansion, standard CBC/PKCS7 bytes, read back by itself, by the undeclared object and by an object declaring both lengths, which also writes); every wrong key length 0..40 must '
                 'raise ValueError in Encrypt and Decrypt; every key_length 0..130 (and 192, 256, 512, 1024) outside {16,24,32} and every cipher_length that is not a '
                 'multiple of 16 must be refused by the constructor; 600 (5000) encryptions of one message by ONE cipher object have pairwise distinct IVs and ciphertexts. non-trivial = message length > 0.'
                 % (hi, '' if tier == 'quick' else ' and 1000, 4095, 4096, 4097, 65535, 65536'),
         'bounds': 'message lengths 0..%d exhaustive' % hi,
         'assumptions': ['wrong-key rejection is decided for DRBG keys only (chance equality 2^-128)'],
-        'must_be_nonzero': ['roundtrip', 'block-multiple-message', 'empty-message', 'declared-mismatch-refused', 'wrong-key-length-refused', 'long-runs', 'wrong-key-runs', 'forked-worker-ciphertexts-compared'],
+        'must_be_nonzero': ['roundtrip', 'block-multiple-message', 'empty-message', 'declared-mismatch-refused', 'declared-length-object-full-oracle', 'wrong-key-length-refused', 'long-runs', 'wrong-key-runs', 'forked-worker-ciphertexts-compared'],
     }
 
 
@@ -136,7 +136,33 @@ def run_enc(r, seed, kl, ki, lens):
                 style = 0
             r['transitions'] += 1
             try:
-                b.Encrypt(key=key, message=m) if style == 1 else b.Encrypt(key, m)
+                cb = b.Encrypt(key=key, message=m) if style == 1 else b.Encrypt(key, m)
+                if ok:
+                    # an object with a declared message length is the same cipher: same expansion, standard CBC/PKCS7 bytes, and what it
+                    # wrote is read back by itself, by the undeclared object and by an object that declares both lengths
+                    r.count('declared-length-object-full-oracle')
+                    dcase = dict(case, declared=ml, call_style=['positional', 'keyword', 'pickled-object', 'deep-copied-object'][style])
+                    if len(cb) != 16 + 16 * (n // 16 + 1):
+                        r.v(PROPERTY, 'AES-CBC', 'expansion', 'length/declared-message-length', dcase, 16 + 16 * (n // 16 + 1), len(cb))
+                    elif cb[16:] != ref_cbc(key, cb[:16], m):
+                        r.v(PROPERTY, 'AES-CBC', 'standard', 'not-cbc-pkcs7/declared-message-length', dcase, 'c[16:] == AES-CBC(k, c[:16], pkcs7(m))', 'differs')
+                    both = A(key_length=kl, message_length=ml, cipher_length=16 + 16 * (n // 16 + 1))
+                    for who, o in (('itself', b), ('undeclared-object', a), ('both-lengths-declared', both)):
+                        r['transitions'] += 1
+                        try:
+                            back = o.Decrypt(key, cb)
+                        except Exception as e:
+                            r.v(PROPERTY, 'AES-CBC', 'roundtrip', 'decrypt-raises/declared-message-length/by-' + who, dcase, 'message', core.exc_text(e))
+                            break
+                        if back != m:
+                            r.v(PROPERTY, 'AES-CBC', 'roundtrip', 'decrypt!=message/declared-message-length/by-' + who, dcase, m, back)
+                            break
+                    try:
+                        cb2 = both.Encrypt(key, m)
+                        if len(cb2) != len(cb) or a.Decrypt(key, cb2) != m:
+                            r.v(PROPERTY, 'AES-CBC', 'roundtrip', 'both-lengths-declared-object-writes-something-else', dcase, m, len(cb2))
+                    except Exception as e:
+                        r.v(PROPERTY, 'AES-CBC', 'roundtrip', 'both-lengths-declared-object-raises', dcase, 'ciphertext', core.exc_text(e))
                 if not ok:
                     r.v(PROPERTY, 'AES-CBC', 'contract', 'message-length-accepted', dict(case, declared=ml, call_style=['positional', 'keyword', 'pickled-object', 'deep-copied-object'][style]), 'ValueError', 'accepted')
             except ValueError:
